@@ -77,6 +77,7 @@ type FEnc struct {
 	safety       bool
 	checked      bool // arithmetic overflow obligations
 	phiSubst     map[*ssa.Phi]*Val
+	noCall       map[string]*Val // arg/result of a callee asked for where no call to it has been executed (see noCallVal)
 	roCapture    map[*ssa.Alloc]bool
 	epochRefs    map[int][]keepRef // arrays private to this function whose content survives the havoc that started the epoch
 	privArr      map[*ssa.MakeSlice]int // 0 unknown, 1 private candidate (never stored, captured or sent), 2 escapes
